@@ -64,6 +64,9 @@ def bounds(tier):
 def units(tier, seed):
   out = [('shapes', menu, n, nl, k)
          for menu, n, nl in bounds(tier)['plans'] for k in range(NCHUNK)]
+  # leaves that are a (shared) mutable non-container and the NO_VALUE
+  # sentinel stored as an argument value
+  out += [('shapes', 'small', 3, 2, k, 'special-leaves') for k in range(8)]
   out += [('pressure', k) for k in (2, 3, 4, 5, 8, 13, 21)]
   out.append(('registry_history',))
   return out
@@ -239,7 +242,7 @@ def same(a, b):
 
 def is_mutable(v):
   return isinstance(v, fdl.Buildable) or type(v) in (
-      list, dict, collections.defaultdict, N.Tmp, N.TmpPrim)
+      list, dict, collections.defaultdict, N.Tmp, N.TmpPrim, bytearray, set)
 
 
 def is_obj(v):
@@ -600,17 +603,21 @@ def run_unit(unit, tier, seed):
       check(root, res, {'pressure': unit[1], 'variant': j}, 'pressure')
     res.sample({'pressure': unit[1]})
     return res
-  _, menu, n, nl, k = unit
+  _, menu, n, nl, k = unit[:5]
+  special = len(unit) > 5
   ks, byname = _kinds(menu)
   leaves = LEAVES if seed % 2 == 0 else ['M1', CONST_TUPLE]
   for idx, shape in enumerate(shapes.all_shapes(ks, n, nl)):
-    if idx % NCHUNK != k:
+    if idx % (8 if special else NCHUNK) != k:
       continue
+    if special:
+      leaves = [bytearray(b'ba'), fdl.NO_VALUE]
     objs = shapes.materialize(shape, byname, leaves)
     root = objs[-1]
     res.states += 1
     res.evals += 1
-    case = {'menu': menu, 'shape': shape, 'cycle': None}
+    case = {'menu': menu, 'shape': shape, 'cycle': None,
+            'special_leaves': special}
     shared = check(root, res, case, f'n{len(shape)}')
     if shared:
       res.nontrivial += 1
@@ -619,6 +626,8 @@ def run_unit(unit, tier, seed):
     # cyclic variants: one per list/dict node
     for j, (kind, _) in enumerate(shape):
       if kind.startswith(('list', 'dict')) and not kind.startswith('dict0'):
+        if special:
+          leaves = [bytearray(b'ba'), fdl.NO_VALUE]
         objs2 = shapes.materialize(shape, byname, leaves)
         if type(objs2[j]) not in (list, dict):
           continue
@@ -641,7 +650,8 @@ def replay(case):
   ks, byname = _kinds(case['menu'])
   shape = tuple((k, tuple(tuple(s) if isinstance(s, list) else s
                           for s in sl)) for k, sl in case['shape'])
-  objs = shapes.materialize(shape, byname, LEAVES)
+  objs = shapes.materialize(shape, byname, [bytearray(b'ba'), fdl.NO_VALUE]
+                            if case.get('special_leaves') else LEAVES)
   print('structure:', objs[-1])
   if case.get('cycle') is not None:
     check_cycle(objs[-1], objs[case['cycle']], res, case)
